@@ -198,7 +198,12 @@ def witnesses(names, p0, job):
 
 def jobs(tier, seed):
     out = []
-    for s in specs():
+    sp = specs()
+    if tier == "thorough":
+        import random
+        rng = random.Random(11000 + seed)
+        sp += [catalog.random_loop_spec(rng, name="rand_loop%d_s%d" % (i, seed)) for i in range(20)]
+    for s in sp:
         for mode in ("sequential", "bidirectional"):
             for numba in (False, True):
                 out.append({"name": "%s/%s/%s" % (s["name"], mode, "numba" if numba else "numpy"), "spec": s, "pfmode": mode,
